@@ -4,6 +4,7 @@ import (
 	"flag"
 	"fmt"
 	"os"
+	"path/filepath"
 	"regexp"
 	"sort"
 	"strings"
@@ -78,6 +79,13 @@ func cmdVerify(argv []string) {
 		}
 		if e.overlay == nil {
 			e.overlay = map[string][]byte{}
+		}
+		if !filepath.IsAbs(kv[0]) {
+			kv[0] = filepath.Join(*repo, kv[0])
+		}
+		if _, err := os.Stat(kv[0]); err != nil {
+			fmt.Fprintln(os.Stderr, "overlay:", err)
+			os.Exit(2)
 		}
 		e.overlay[kv[0]] = b
 	}
